@@ -223,7 +223,7 @@ func rawLoadPackage(sys fs.FS, pkg string) (*token, error) {
 	}
 	tree := joinFiles(files)
 	for _, tok := range tree.Tokens {
-		if tok.Symbol == "package" && tok.Tokens[0].Text != "main" && tok.Tokens[0].Text != pkg {
+		if tok.Symbol == "package" && len(tok.Tokens) > 0 && tok.Tokens[0].Text != "main" && tok.Tokens[0].Text != pkg {
 			exp := symAtPos(tok.Pos, "(string)")
 			exp.Text = pkg
 			tok.Append(exp)
